@@ -913,6 +913,7 @@ const smtPrelude = `(set-option :produce-models true)
 (declare-fun sbyte (Str Int) Int)
 (declare-fun sless (Str Str) Bool)
 (assert (forall ((a Str) (b Str)) (! (= (ssub (sconcat a b) 0 (slen a)) a) :pattern ((ssub (sconcat a b) 0 (slen a))))))
+(assert (forall ((a Str)) (! (and (= (sconcat strEmpty a) a) (= (sconcat a strEmpty) a)) :pattern ((sconcat strEmpty a)) :pattern ((sconcat a strEmpty)))))
 (declare-fun ix (Int Int) Int)
 (assert (forall ((o Int) (i Int)) (! (= (ix o i) (+ o i)) :pattern ((ix o i)))))
 (assert (forall ((s Str)) (! (and (<= 0 (slen s)) (<= (slen s) 4611686018427387904) (= (= (slen s) 0) (= s strEmpty))) :pattern ((slen s)))))
